@@ -161,7 +161,7 @@ def noDotDot (b : Bytes) : Bool := (kchunks b).all (fun c => c != dotdot)
     File::copy is run with a failing lseek (the world does not change either). -/
 def objRun (fs : Fs) : List String → Obj.St → String → Option String
   | [], st, out =>
-    let st := Obj.run st [.destroy 0, .destroy 1, .destroy 2]
+    let st := Obj.run st [.destroy 0, .destroy 1, .destroy 2, .destroy 3, .destroy 4, .destroy 5]
     some (out ++ s!" end={Obj.held st}")
   | it :: rest, st, out =>
     let parts := it.splitOn ":"
@@ -182,7 +182,22 @@ def objRun (fs : Fs) : List String → Obj.St → String → Option String
     else do
       let i ← ((head.drop 1).toString).toNat?
       if i > 2 then none
-      if c == "o" then
+      if c == "O" then
+        match parts with
+        | [_, p] => do           -- Directory object i = slot 3 + i; opendir succeeds iff the model can list the directory
+          let p ← fromHex p
+          if !okFsPath p || p.isEmpty then none
+          let env : Obj.OpenEnv := if (dirList fs p).isSome then .ok else .fail
+          let (st', ok) := Obj.step st (.openF (3 + i) env false)
+          objRun fs rest st' (out ++ s!" O={b01 ok}/{Obj.held st'}")
+        | _ => none
+      else if c == "C" && parts.length == 1 && head.length == 2 then
+        let (st', _) := Obj.step st (.close (3 + i))
+        objRun fs rest st' (out ++ s!" C=1/{Obj.held st'}")
+      else if c == "X" && parts.length == 1 && head.length == 2 then
+        let (st', _) := Obj.step st (.destroy (3 + i))
+        objRun fs rest st' (out ++ s!" X=1/{Obj.held st'}")
+      else if c == "o" then
         match parts with
         | [_, p, fl] => do
           let p ← fromHex p; let fl ← fl.toNat?
